@@ -18,6 +18,8 @@ STMT = {
     ('dbg',): 'if __debug__: emit("dbg")', ('dbg_else',): 'if __debug__: emit("dbg")\nelse: emit("nodbg")',
     ('dbg_is',): 'if __debug__ is True: emit("dbg2")', ('dbg_isnot',): 'if __debug__ is not False: emit("dbg3")', ('dbg_eq',): 'if __debug__ == True: emit("dbg4")',
     ('dbg_elif',): 'if __debug__: emit("dbg")\nelif emit("elif"): emit("elifbody")',
+    ('dbg_chain',): 'if __debug__: emit("dbg")\nelif __debug__ is True: emit("dbg2")\nelse: emit("nodbg")',
+    ('dbg_chain_noelse',): 'if __debug__: emit("dbg")\nelif __debug__ is True: emit("dbg2")',
     ('notdbg',): 'if not __debug__: emit("notdbg")', ('dbg_isfalse',): 'if __debug__ is False: emit("dbgfalse")',
     ('x_is_true',): 'if xflag is True: emit("xtrue")', ('x_eq_true',): 'if xflag == True: emit("xeq")', ('true_is_dbg',): 'if True is __debug__: emit("tdbg")',
     ('dbg_bind',): 'if __debug__: zq = emit("dbgbind")', ('assert_bind',): 'assert (zq := emit("assertbind"))',
@@ -233,6 +235,10 @@ def classify(st):
                 return ['dbg_else']
             if len(st.orelse) == 1 and classify(st.orelse[0]) == ['elif_if']:
                 return ['dbg_elif']
+            if len(st.orelse) == 1 and isinstance(st.orelse[0], ast.If) and ast.dump(st.orelse[0]) == ast.dump(ast.parse(STMT[('dbg_chain',)]).body[0].orelse[0]):
+                return ['dbg_chain']
+            if len(st.orelse) == 1 and isinstance(st.orelse[0], ast.If) and ast.dump(st.orelse[0]) == ast.dump(ast.parse(STMT[('dbg_chain_noelse',)]).body[0].orelse[0]):
+                return ['dbg_chain_noelse']
         if isinstance(t, ast.Call) and _is_emit(t, 'elif') and tag == 'elifbody' and not st.orelse:
             return ['elif_if']
         if not st.orelse and isinstance(t, ast.Compare) and len(t.ops) == 1:
